@@ -515,6 +515,45 @@ fn own_case(idx: usize, c: &Value, seed: u64, rep: &mut Report) {
             }
         }
     }
+    // every box of the set alone, under similarities with non-round factors and offsets (the lattice instances above have
+    // f32-exact areas): a box that overlaps nothing owns all of itself, and the share never leaves [0, 1] - whatever the
+    // rounding of the f32 area in the denominator does
+    const FACTORS: [f64; 6] = [0.37, 3.3333, 8.6469, 21.7301, 57.913, 173.205];
+    for (i, l) in ls.iter().enumerate() {
+        for k in 0..4u64 {
+            let hh = fnv(&l.key(), h.wrapping_add(k));
+            let m = Motion {
+                s: FACTORS[(hh % 6) as usize],
+                theta: if k % 2 == 0 { 0.0 } else { THETAS[((hh >> 4) % 10) as usize] },
+                tx: ((hh >> 8) % 2_000_001) as f64 / 1000.0 - 1000.0,
+                ty: ((hh >> 32) % 2_000_001) as f64 / 1000.0 - 1000.0,
+            };
+            rep.steps += 1;
+            rep.count("own_single_boxes_non_round", 1);
+            let b = build(l, &m, true);
+            let refs = vec![&b.b];
+            let r = catch_unwind(AssertUnwindSafe(|| exclusively_owned_areas_normalized_shares(&refs, &exclusively_owned_areas(&refs))));
+            let mut d = json!({"variant": "single/non-round", "motion": m.json(), "key": l.key(), "box": i});
+            match r {
+                Err(pn) => {
+                    d["panic"] = json!(panic_text(&pn));
+                    out.push((format!("own:panic:{}", l.key()), d));
+                }
+                Ok(sh) => {
+                    if sh.len() != 1 {
+                        out.push(("own:length".into(), d));
+                    } else if !(sh[0] >= 0.0 && sh[0] <= 1.0) {
+                        d["impl"] = json!(format!("{}", sh[0]));
+                        out.push(("own:share:out-of-range".into(), d));
+                    } else if (sh[0] as f64) < 1.0 - IOU_TOL - LIB_EPS / b.area {
+                        d["spec"] = json!(1.0);
+                        d["impl"] = json!(sh[0]);
+                        out.push(("own:share:value".into(), d));
+                    }
+                }
+            }
+        }
+    }
     report_once(idx, c, out, rep);
 }
 
@@ -531,12 +570,16 @@ fn conv_case(idx: usize, c: &Value, rep: &mut Report) {
     let aspect = ji(&asp[0]) as f64 / ji(&asp[1]) as f64;
     rep.nontrivial += 1;
     let mut out: Vec<(String, Value)> = vec![];
-    // magnitudes 1e-2 .. 1e4 through power-of-two scales and exact offsets
-    for (s, off) in [(1.0, 0.0), (1.0 / 32.0, 0.0), (1024.0, 0.0), (1.0, 8192.0), (4.0, -4096.0)] {
+    // magnitudes 1e-2 .. 1e4 through power-of-two scales (per axis: the conversions commute with a scaling of either axis,
+    // the aspect ratio goes with sx / sy - the last two entries are the thin-and-tall and the wide-and-flat corners of the
+    // range) and exact offsets
+    for (sx, sy, off) in [(1.0, 1.0, 0.0), (1.0 / 32.0, 1.0 / 32.0, 0.0), (1024.0, 1024.0, 0.0), (1.0, 1.0, 8192.0), (4.0, 4.0, -4096.0),
+                          (1.0 / 16.0, 2048.0, 0.0), (512.0, 1.0 / 16.0, 0.0)] {
         rep.steps += 1;
-        let q = |name: &str| s * jint(r, name) as f64 / 4.0;
-        let (l, t, w, h) = (q("l") + off, q("t") - off, q("w"), q("h"));
-        let d0 = json!({"scale": s, "offset": off, "ltwh": [l, t, w, h]});
+        let q = |name: &str, s: f64| s * jint(r, name) as f64 / 4.0;
+        let (l, t, w, h) = (q("l", sx) + off, q("t", sy) - off, q("w", sx), q("h", sy));
+        let aspect = aspect * sx / sy;
+        let d0 = json!({"scale": [sx, sy], "offset": off, "ltwh": [l, t, w, h]});
         let res = catch_unwind(AssertUnwindSafe(|| {
             let mut res: Vec<(String, Value)> = vec![];
             let bb = BoundingBox::new_with_confidence(l as f32, t as f32, w as f32, h as f32, 0.75);
@@ -546,9 +589,9 @@ fn conv_case(idx: usize, c: &Value, rep: &mut Report) {
                 ("as_xyaah", bb.as_xyaah()),
                 ("ltwh", Universal2DBox::ltwh_with_confidence(l as f32, t as f32, w as f32, h as f32, 0.75)),
             ];
-            let mag = s.max(off.abs());
+            let mag = sx.max(sy).max(off.abs());
             for (n, u) in forms.iter() {
-                let exp = [s * lb.x as f64 / 2.0 + off, s * lb.y as f64 / 2.0 - off, aspect, s * lb.h as f64 / 2.0, 0.75];
+                let exp = [sx * lb.x as f64 / 2.0 + off, sy * lb.y as f64 / 2.0 - off, aspect, sy * lb.h as f64 / 2.0, 0.75];
                 let got = [u.xc as f64, u.yc as f64, u.aspect as f64, u.height as f64, u.confidence as f64];
                 let names = ["xc", "yc", "aspect", "height", "confidence"];
                 for i in 0..5 {
@@ -561,10 +604,10 @@ fn conv_case(idx: usize, c: &Value, rep: &mut Report) {
                 }
                 // and back
                 let exp = [
-                    s * (2 * back.x - back.w) as f64 / 4.0 + off,
-                    s * (2 * back.y - back.h) as f64 / 4.0 - off,
-                    s * back.w as f64 / 2.0,
-                    s * back.h as f64 / 2.0,
+                    sx * (2 * back.x - back.w) as f64 / 4.0 + off,
+                    sy * (2 * back.y - back.h) as f64 / 4.0 - off,
+                    sx * back.w as f64 / 2.0,
+                    sy * back.h as f64 / 2.0,
                     0.75,
                 ];
                 for (bn, b2) in [("try_from", BoundingBox::try_from(u)), ("try_from.owned", BoundingBox::try_from(u.clone()))] {
@@ -607,8 +650,15 @@ fn poly_case(idx: usize, c: &Value, seed: u64, rep: &mut Report) {
     let cen = jarr(c, "centre");
     let (ecx, ecy) = (ji(&cen[0]) as f64 / 4.0, ji(&cen[1]) as f64 / 4.0);
     let mut out: Vec<(String, Value)> = vec![];
-    let variants: [(&str, Motion, bool); 4] =
-        [("lattice/none", IDENTITY, true), ("lattice/some", IDENTITY, false), ("moved/near", motion(h, 0), true), ("moved/far", motion(h, 1), false)];
+    // an angle below the library's EPS is still an angle: the vertices move by angle x radius, far above the tolerance
+    let tiny = Motion { theta: [7e-6, -3e-6, 9.5e-6, -1e-6][((h >> 50) % 4) as usize], ..motion(h, 0) };
+    let variants: [(&str, Motion, bool); 5] = [
+        ("lattice/none", IDENTITY, true),
+        ("lattice/some", IDENTITY, false),
+        ("moved/near", motion(h, 0), true),
+        ("moved/far", motion(h, 1), false),
+        ("moved/tiny-angle", tiny, false),
+    ];
     for (vname, m, none_enc) in variants.iter() {
         if *vname == "lattice/none" && l.k != 0 {
             continue;
